@@ -7,6 +7,7 @@ import (
 	"strconv"
 	"strings"
 	"sync"
+	"time"
 
 	"github.com/robbyt/go-supervisor/runnables/composite"
 	"github.com/robbyt/go-supervisor/supervisor"
@@ -245,6 +246,9 @@ type nested struct {
 	name  int
 	rec   *director.Recorder
 	inner *composite.Runner[supervisor.Runnable]
+
+	mu     sync.Mutex // orders the wrapper's own log entries: RunRet is logged before StopRet
+	active int
 }
 
 func newNested(id int, spec ChildSpec, rec *director.Recorder) *nested {
@@ -263,7 +267,10 @@ func newNested(id int, spec ChildSpec, rec *director.Recorder) *nested {
 
 func (n *nested) String() string { return "child-" + strconv.Itoa(n.name) }
 func (n *nested) Run(ctx context.Context) error {
+	n.mu.Lock()
+	n.active++
 	n.rec.Emit("RunCall %d", n.id)
+	n.mu.Unlock()
 	err := n.inner.Run(ctx)
 	es := "nil"
 	if err != nil {
@@ -274,12 +281,24 @@ func (n *nested) Run(ctx context.Context) error {
 			err = fmt.Errorf("%w: %v", sentinels[9], err)
 		}
 	}
+	n.mu.Lock()
+	n.active--
 	n.rec.Emit("RunRet %d %s", n.id, es)
+	n.mu.Unlock()
 	return err
 }
 func (n *nested) Stop() {
 	n.rec.Emit("StopCall %d", n.id)
 	n.inner.Stop()
+	for { // the inner Run has returned; let the wrapper log RunRet first
+		n.mu.Lock()
+		a := n.active
+		n.mu.Unlock()
+		if a == 0 {
+			break
+		}
+		time.Sleep(50 * time.Microsecond)
+	}
 	n.rec.Emit("StopRet %d", n.id)
 }
 func (n *nested) Reload(context.Context) { n.rec.Emit("ReloadPlain %d", n.id) }
